@@ -367,7 +367,7 @@ class IndexedSet(MutableSet):
         "symmetric_difference_update(other) -> in-place XOR with other"
         if self is other:
             self.clear()
-        for val in other:
+        for val in IndexedSet(other):  # each element toggles once, as with sets
             if val in self:
                 self.discard(val)
             else:
